@@ -25,6 +25,7 @@ def parseStep (t : String) : Option (Step × Option String) :=
   | ["lx", s] => do some (.linkClose (← s.toNat?), none)
   | ["lr", s] => do some (.linkRecv (← s.toNat?), none)
   | ["lg", s] => do some (.linkGone (← s.toNat?), none)
+  | ["at"] => some (.agentTerminate, none)
   | ["rp", k] => some (.rootProc, some k)
   | ["rp"] => some (.rootProc, none)
   | ["rr"] => some (.rootRespond, none)
@@ -75,7 +76,7 @@ def words (s : String) : List String := (s.splitOn " ").filter (· ≠ "")
 
 def runCase (line : String) : String :=
   match line.splitOn "|" with
-  | [capS, tr] =>
+  | capS :: tr :: _ =>
     match (capS.splitOn "=") with
     | ["cap", c] =>
       match c.toNat?, (words tr).mapM (fun t => (parseStep t).map fun (x, k) => (t, x, k)) with
